@@ -135,6 +135,56 @@ def run(ctx):
         er = [e for e in evs if e.kind == 'call' and e.q.endswith('::erase') and e.obj is not None and ex.mentions(e.obj, ('field', lib.this_field(ACQ + '::semaphore_'), queue))]
         ctx.check(len(er) == 1, 'R3', 'cancel removes the acquisition from the semaphore queue', where(cn), 'erase x%d' % len(er), key='R3|cancel|erase')
 
+    # ---- R6 a grant reaches its waiter ----------------------------------------------------------------------------------------------------------
+    ctx.rule('R6', 'a grant reaches its waiter: release() finishes the granted acquisition iff its issuer is blocked on it; wait_for on an acquisition granted before the wait '
+             'finishes at once and arms no timeout', 3)
+    v = A.view(rel)
+    nrel = 0
+    for p in v.paths():
+        if p.exit in ('noreturn', 'cut', 'throw'):
+            continue
+        evs = v.path_events(p)
+        g = grants(evs)
+        if not g:
+            continue
+        acqv = g[0].lhs[1]
+        fins = [e for e in evs if e.kind == 'call' and e.q == ACQ + '::finish' and e.obj == acqv]
+        waiting = None
+        for e in evs:
+            if e.kind == 'branch' and e.atom[0] == 'bin' and e.atom[1] == '==' and e.atom[2][0] == 'call' and e.atom[3][0] == 'call':
+                f_, e_ = sorted([e.atom[2], e.atom[3]], key=lambda t: t[1].endswith('::end'))
+                if f_[1] in ('std::find', 'boost::range::find') and f_[3][-1] == acqv and e_[1].endswith('::end'):
+                    waiting = not e.pol
+        nrel += 1
+        if waiting is None:
+            ctx.violation('R6', 'release: finish() iff the granted waiter is blocked on its acquisition', where(rel, g[0].line),
+                          'the granted acquisition is %s with no test that its issuer is blocked on it: %s' % ('finished' if fins else 'never finished',
+                                                                                                             'an actor that has not reached its wait yet has no simcall to answer' if fins else 'a blocked waiter is granted but never woken'),
+                          key='R6|release|finish iff waiting')
+        else:
+            ctx.check((len(fins) == 1) == waiting, 'R6', 'release: finish() iff the granted waiter is blocked on its acquisition (waiting=%s)' % waiting, where(rel, g[0].line), 'finish x%d' % len(fins),
+                      key='R6|release|finish iff waiting')
+    ctx.require(nrel >= 1, 'R6', 'granting path of release not recognised')
+    wfq = P.fn(ACQ + '::wait_for')
+    vw = A.view(wfq)
+    ng = 0
+    allsee = True
+    for p in vw.paths():
+        if p.exit in ('noreturn', 'cut', 'throw'):
+            continue
+        evs = vw.path_events(p)
+        gr = [e.pol for e in evs if e.kind == 'branch' and e.atom == lib.truthy(lib.this_field(granted))]
+        fins = [e for e in evs if e.kind == 'call' and e.q == ACQ + '::finish']
+        armed = [e for e in evs if e.kind == 'call' and e.q.endswith('::sleep')]
+        if not gr:
+            allsee = False
+        elif gr[0]:
+            ng += 1
+            ctx.check(len(fins) == 1 and not armed, 'R6', 'wait_for on an acquisition already granted finishes at once and arms no timeout', where(wfq), 'finish x%d, armed x%d' % (len(fins), len(armed)),
+                      key='R6|wait_for|granted before waiting')
+    ctx.check(allsee and ng >= 1, 'R6', 'wait_for tests granted_ on every path', where(wfq), '' if allsee and ng else 'a token granted before the waiter blocked (asynchronous acquire, MC mode) is not seen: the waiter sleeps for ever',
+              key='R6|wait_for|granted before waiting')
+
     # ---- R4 sentinel agreement -------------------------------------------------------------------------------------------------
     ctx.rule('R4', 'the guard separating "no timeout" (negative) from "timeout armed" is timeout >= 0 in every wait_for', 2)
     wf = P.fn(ACQ + '::wait_for')
